@@ -447,3 +447,83 @@ Proof.
   rewrite (trim_left_id _ (ws_len_initial c _ Hc)).
   change (String c (r ++ ch d)) with (String c r ++ ch d). now apply trim_right_final.
 Qed.
+
+(* ---- TrimSpace is idempotent ------------------------------------------------ *)
+Lemma has_prefix_app_r : forall p s z, has_prefix p s = true -> has_prefix p (s ++ z) = true.
+Proof.
+  induction p as [|a p IH]; intros s z H; [reflexivity|].
+  destruct s as [|b s]; [discriminate|]. simpl in *.
+  apply andb_true_iff in H. destruct H as [H1 H2]. now rewrite H1, (IH s z H2).
+Qed.
+
+Lemma match_len_prefix : forall pats s z, Forall (fun p => p <> "") pats ->
+  match_len pats (s ++ z) = 0 -> match_len pats s = 0.
+Proof.
+  induction pats as [|p pats IH]; intros s z F H; [reflexivity|].
+  inversion F as [|? ? Hp F']; subst. simpl in *.
+  destruct (has_prefix p s) eqn:E.
+  - rewrite (has_prefix_app_r p s z E) in H. destruct p as [|a p']; [now elim Hp | simpl in H; discriminate H].
+  - destruct (has_prefix p (s ++ z)); [destruct p as [|a p']; [now elim Hp | simpl in H; discriminate H]|]. now apply (IH s z).
+Qed.
+
+Lemma ws_multi_nonempty : Forall (fun p => p <> "") ws_multi.
+Proof. unfold ws_multi. repeat constructor; discriminate. Qed.
+
+(* no white-space rune at the head of a prefix of a string without one *)
+Lemma ws_len_prefix : forall s z, ws_len (s ++ z) = 0 -> ws_len s = 0.
+Proof.
+  intros [|c r] z H; [reflexivity|].
+  change (String c r ++ z) with (String c (r ++ z)) in H.
+  unfold ws_len in *. destruct (is_ascii_space c) eqn:E.
+  - exact H.
+  - change (String c (r ++ z)) with (String c r ++ z) in H.
+    now apply (match_len_prefix ws_multi (String c r) z ws_multi_nonempty).
+Qed.
+
+Lemma trim_left_from_ws_len : forall s k, ws_len (trim_left_from k s) = 0.
+Proof.
+  induction s as [|c r IH]; intros k; [reflexivity|].
+  unfold trim_left_from; fold trim_left_from. destruct k as [|k]; [|apply IH].
+  destruct (ws_len (String c r)) as [|j] eqn:E; [exact E | apply IH].
+Qed.
+
+Lemma trim_left_ws_len : forall s, ws_len (trim_left s) = 0.
+Proof. intros s. apply trim_left_from_ws_len. Qed.
+
+(* TrimRight removes a suffix *)
+Lemma trim_right_prefix : forall s, exists z, s = trim_right s ++ z.
+Proof.
+  induction s as [|c r IH]; [exists ""; reflexivity|].
+  destruct IH as [z Ez]. unfold trim_right; fold trim_right.
+  destruct (is_ws_rune (String c (trim_right r))).
+  - exists (String c r). reflexivity.
+  - exists z. simpl. now rewrite <- Ez.
+Qed.
+
+Lemma trim_right_cons : forall c r,
+  trim_right (String c r) = if is_ws_rune (String c (trim_right r)) then "" else String c (trim_right r).
+Proof. reflexivity. Qed.
+
+Lemma trim_right_idem : forall s, trim_right (trim_right s) = trim_right s.
+Proof.
+  induction s as [|c r IH]; [reflexivity|].
+  rewrite trim_right_cons. destruct (is_ws_rune (String c (trim_right r))) eqn:E; [reflexivity|].
+  rewrite trim_right_cons, IH, E. reflexivity.
+Qed.
+
+Lemma trim_space_idem : forall s, trim_space (trim_space s) = trim_space s.
+Proof.
+  intros s. unfold trim_space.
+  destruct (trim_right_prefix (trim_left s)) as [z Ez].
+  assert (W : ws_len (trim_right (trim_left s)) = 0).
+  { apply (ws_len_prefix _ z). rewrite <- Ez. apply trim_left_ws_len. }
+  rewrite (trim_left_id _ W). apply trim_right_idem.
+Qed.
+
+(* the result of TrimSpace neither starts nor ends with white space *)
+Lemma trim_space_fixed_left : forall s, trim_space s = s -> trim_left s = s.
+Proof.
+  intros s H. apply trim_left_id. rewrite <- H. unfold trim_space.
+  destruct (trim_right_prefix (trim_left s)) as [z Ez].
+  apply (ws_len_prefix _ z). rewrite <- Ez. apply trim_left_ws_len.
+Qed.
